@@ -413,6 +413,16 @@ theorem gen_ir_minRecordLen (addr : Bytes) (fuel : Nat) (st : IpfixIR.St) (t : T
     IpfixProg.minRecordLen addr fuel [.tpl t] st = some (st, [.tpl t], [.int (Ipfix.minRecLen t)]) :=
   IpfixIR.minRecordLen_sem addr fuel st t
 
+/-- **`Decoder.decodeData` translated = `Ipfix.decodeData`** for every template, reader state, cache and exporter:
+the two index loops over the scope and the field specifiers (element lookup, `getDataLength`, `Read`, `Interpret`,
+`append`, in this order), the non-fatal "not exist" / "failed to decodeData" errors and the fatal read errors, the
+reader position on every path.  `fuel` bounds the iterations of each loop: any value above the two specifier counts. -/
+theorem gen_ir_decodeData (addr : Bytes) (fuel : Nat) (r : Rd) (c : Cache) (t : Template)
+    (hs : t.scope.length < fuel) (hf : t.fields.length < fuel) :
+    IpfixProg.decodeData addr fuel [.tpl t] ⟨r, c⟩ =
+      some (⟨(Ipfix.decodeData t r).2, c⟩, [], IpfixProg.recResult (Ipfix.decodeData t r).1) :=
+  IpfixIR.decodeData_sem addr fuel r c t hs hf
+
 /-- non-vacuity: the translated `getDataLength` on the three-octet prefix `ff 01 00` and on a short reader; the
 translated `minRecordLen` on a template with a variable-length field -/
 example : IpfixProg.getDataLength [] 0 [.int 65535] ⟨⟨[255, 1, 0, 7], 0⟩, []⟩ = some (⟨⟨[7], 3⟩, []⟩, [], [.int 256, .nil]) ∧
